@@ -1,10 +1,159 @@
-"""C19 — generated wiring; generators come from tools/gens/*.py (gen_C19) of the units in tools/units.py."""
+"""C19 — secret values never influence which instructions execute.
+
+Dynamic part: the optimised (`release`) harness binary executes each operation between two markers under an
+instruction tracer (tools/pctrace.py: valgrind lackey; tools/pctrace.c: ptrace single-step cross-check in the
+thorough tier); for fixed public inputs the sequence of instruction addresses must be identical for every secret.
+A deliberately variable-time control (ed25519 verify on two different public inputs) must differ — tracer sensitivity.
+Lean part: theorems about leakage-instrumented models (Props/C19*.lean) — the trace of the modelled constant-time
+building blocks is a function of public data only."""
+import concurrent.futures as cf
+import os
+import subprocess
+import sys
+
 from props import _auto
+sys.path.insert(0, os.path.dirname(os.path.dirname(os.path.abspath(__file__))))
+import cxlib as cx  # noqa: E402
+import pctrace  # noqa: E402
 
 LEAN_MODULES = _auto.lean_modules("C19")
-VARIANTS = ['default']
-RULE = 'secrets {random, 0, all-ones, single-bit} with public inputs fixed, every first-mismatch position for comparisons; instruction-address traces between two markers must be identical; non-trivial = pair of distinct secrets; distinct = distinct (op, secret) pairs'
-TRUSTED = ["hand-written Lean models (lean/CxVerif/Impl, Spec) tied to the code by the correspondence run and by tables re-extracted from /repo/src"]
-ASSUMPTIONS = []
-gen = _auto.make_gen("C19")
-nontrivial = _auto.default_nontrivial
+VARIANTS = ["release"]
+RULE = ("for each traced operation: public inputs and all lengths fixed, secrets in {random x2, all-zero, all-ones, single low bit, single high "
+        "bit}; comparisons: equal operands and a first mismatch at every position (thorough) / sampled positions (quick); the PC-sequence hash "
+        "of every secret must equal that of the first; non-trivial = a pair of distinct secrets on the same public input; distinct = distinct "
+        "(operation, public input, secret) triples")
+TRUSTED = ["valgrind 3.19 lackey instruction trace (= the instructions the optimised binary executes; cross-checked against a ptrace single-step "
+           "trace in the thorough tier)", "rustc -O code generation is observed, not proved: the Lean leakage theorems speak about the models"]
+ASSUMPTIONS = ["lengths, public keys, nonces, messages are public; keys, scalars, seeds, tags, plaintexts are secret",
+               "memory-address traces (loads/stores) are also hashed and reported as information (mem_trace_equal) but are not part of the property"]
+
+
+def gen(tier, rng):
+    return iter(())
+
+
+def nontrivial(line, kind, row):
+    return True
+
+
+def secrets(rng, n, tier):
+    s = [rng.rbytes(n), rng.rbytes(n), bytes(n), b"\xff" * n, b"\x01" + bytes(n - 1), bytes(n - 1) + b"\x80"]
+    if tier == "thorough":
+        s += [rng.rbytes(n) for _ in range(4)] + [bytes(n // 2) + b"\x10" + bytes(n - n // 2 - 1)]
+    return s
+
+
+def plan(tier, rng):
+    """list of (group_label, [ (args list) ... ]) — all members of a group must have identical traces"""
+    H = cx.hx
+    groups = []
+    u9 = bytes([9]) + bytes(31)
+    for u in [u9, rng.rbytes(32)] + ([bytes(32), b"\xff" * 32] if tier == "thorough" else []):
+        groups.append((f"x25519.dh u={H(u)[:8]}", [["x25519.dh", H(u), H(s)] for s in secrets(rng, 32, tier)]))
+    groups.append(("x25519.base", [["x25519.base", H(s)] for s in secrets(rng, 32, tier)]))
+    groups.append(("ed25519.keypair", [["ed25519.keypair", H(s)] for s in secrets(rng, 32, tier)]))
+    for mlen in ([0, 100] if tier == "quick" else [0, 1, 63, 64, 100, 200]):
+        m = rng.rbytes(mlen)
+        groups.append((f"ed25519.sign len={mlen}", [["ed25519.sign", H(m), H(s)] for s in secrets(rng, 32, tier)]))
+    m = rng.rbytes(40)
+    groups.append(("ed25519.sign_ext", [["ed25519.sign_ext", H(m), H(s)] for s in secrets(rng, 64, tier)]))
+    for mlen in ([0, 15, 16, 64] if tier == "quick" else [0, 1, 15, 16, 17, 32, 64, 100, 256]):
+        m = rng.rbytes(mlen)
+        groups.append((f"poly1305.tag len={mlen}", [["poly1305.tag", H(m), H(s)] for s in secrets(rng, 32, tier)]))
+    for (alg, klens) in (("hmac.sha256", [32, 64, 65] if tier == "quick" else [0, 1, 32, 63, 64, 65, 130]),
+                         ("hmac.sha512", [64] if tier == "quick" else [32, 128, 129])):
+        for kl in klens:
+            m = rng.rbytes(50)
+            ss = [s for s in secrets(rng, max(kl, 1), tier)] if kl else [b""]
+            ss = [s[:kl] for s in ss]
+            if kl:
+                groups.append((f"{alg} keylen={kl}", [[alg, H(m), H(s)] for s in ss]))
+    for (op, nl) in (("chacha20.enc", 12), ("salsa20.enc", 8)):
+        for dl in ([100] if tier == "quick" else [1, 64, 100, 300]):
+            nonce = rng.rbytes(nl)
+            members = []
+            for k in secrets(rng, 32, tier):
+                members.append([op, H(nonce), str(dl), H(k), H(rng.rbytes(dl))])
+            groups.append((f"{op} len={dl}", members))
+    # comparisons: equal, and first mismatch at each position
+    for (op, n) in (("macresult.eq", 32), ("tag.eq", 16), ("macresult.eq", 64 if tier == "thorough" else 20)):
+        ref = rng.rbytes(n)
+        poss = range(n) if tier == "thorough" else sorted(set([0, 1, n // 2, n - 2, n - 1]))
+        members = [[op, H(ref), H(ref)]]
+        for p in poss:
+            o = bytearray(ref)
+            o[p] ^= 1 << rng.randrange(8)
+            for q in range(p + 1, n):      # later bytes random: the FIRST mismatch is at p
+                o[q] = rng.randrange(256) if rng.random() < 0.5 else o[q]
+            members.append([op, H(ref), H(bytes(o))])
+        groups.append((f"{op} n={n}", members))
+    return groups
+
+
+def extra_checks(tier, rng, variants, broken, failing):
+    binp = cx.harness_bin("release")
+    groups = plan(tier, rng)
+    jobs = [(gi, mi, args) for gi, (_, ms) in enumerate(groups) for mi, args in enumerate(ms)]
+    # tracer-sensitivity control: two honest signatures, different messages -> traces must differ
+    ctrl = []
+    for i in range(2):
+        seed = rng.rbytes(32)
+        msg = rng.rbytes(20)
+        o = subprocess.run([binp, "trace", "ed25519.keypair", cx.hx(seed)], capture_output=True, text=True).stdout.strip()
+        kp = bytes.fromhex(o)
+        sig = subprocess.run([binp, "trace", "ed25519.sign", cx.hx(msg), cx.hx(seed)], capture_output=True, text=True).stdout.strip()
+        ctrl.append(["control.verify", cx.hx(msg), kp[32:].hex(), sig])
+    results = {}
+    with cf.ProcessPoolExecutor(max_workers=cx.NCPU) as ex:
+        futs = {ex.submit(pctrace.trace, binp, args): (gi, mi) for gi, mi, args in jobs}
+        cfut = [ex.submit(pctrace.trace, binp, a) for a in ctrl]
+        for f in cf.as_completed(futs):
+            results[futs[f]] = f.result()
+        cres = [f.result() for f in cfut]
+    evaluations = len(jobs) + len(ctrl)
+    nontriv = 0
+    samples = []
+    mem_equal = True
+    for gi, (label, ms) in enumerate(groups):
+        r0 = results[(gi, 0)]
+        if "error" in r0:
+            broken.append({"kind": "tracer", "theorem": None, "file": label, "message": r0["error"]})
+            continue
+        for mi in range(1, len(ms)):
+            r = results[(gi, mi)]
+            nontriv += 1
+            if "error" in r:
+                broken.append({"kind": "tracer", "theorem": None, "file": label, "message": r["error"]})
+            elif r["pc_hash"] != r0["pc_hash"] or r["steps"] != r0["steps"]:
+                div = pctrace.first_divergence(binp, ms[0], ms[mi])
+                failing.append({"line": "trace " + " ".join(ms[mi]), "kind": "trace:" + label,
+                                "answers": {"reference": "trace " + " ".join(ms[0]), "steps": [r0["steps"], r["steps"]],
+                                            "pc_hash": [r0["pc_hash"], r["pc_hash"]], "first_divergence": div},
+                                "why": f"instruction trace differs from the one of the reference secret ({label}); first divergence {div}"})
+            elif r["mem_hash"] != r0["mem_hash"]:
+                mem_equal = False
+        samples.append({"group": label, "members": len(ms), "steps": r0["steps"], "pc_hash": r0["pc_hash"], "example": ms[0][:2]})
+    sens = ("error" not in cres[0] and "error" not in cres[1] and cres[0]["pc_hash"] != cres[1]["pc_hash"]
+            and cres[0]["out"] == "true" and cres[1]["out"] == "true")
+    if not sens:
+        broken.append({"kind": "tracer", "theorem": None, "file": "control.verify",
+                       "message": f"sensitivity control failed: {cres}"})
+    xcheck = None
+    if tier == "thorough":
+        # ptrace single-step cross-check of one short operation: same number of steps as the valgrind trace
+        pt = os.path.join(cx.CACHE, "bin", "pctrace")
+        os.makedirs(os.path.dirname(pt), exist_ok=True)
+        subprocess.run(["gcc", "-O2", "-o", pt, os.path.join(cx.VERIF, "tools", "pctrace.c")], check=False)
+        args = ["tag.eq", "00" * 16, "00" * 15 + "01"]
+        b, e = pctrace.marker_offsets(binp)
+        o = subprocess.run([pt, hex(b)[2:], hex(e)[2:], "--", binp, "trace"] + args, capture_output=True, text=True).stdout
+        v = pctrace.trace(binp, args)
+        import re
+        m = re.search(r"steps=(\d+)", o)
+        xcheck = {"ptrace_steps": int(m.group(1)) if m else None, "valgrind_steps": v.get("steps")}
+        if not m or abs(int(m.group(1)) - v.get("steps", -1)) > 1:
+            broken.append({"kind": "tracer", "theorem": None, "file": "ptrace-crosscheck", "message": str(xcheck)})
+    return {"evaluations": evaluations, "distinct_nontrivial": nontriv, "samples": samples[:12],
+            "traces": evaluations, "trace_groups": len(groups), "sensitivity_control_differs": sens,
+            "mem_trace_equal": mem_equal, "ptrace_crosscheck": xcheck,
+            "traces_validated_against_impl": evaluations}
